@@ -35,16 +35,23 @@ def solve_obligation(ob, timeout_ms=10000, seed=0):
         ob.reason = "decided at translation time"
         ob.seconds = 0.0
         return ob
-    s = z3.Solver()
-    s.set("timeout", timeout_ms)
-    s.set("random_seed", seed)
-    for h in ob.hyps:
-        s.add(h)
-    s.add(z3.Not(ob.goal))
     sc = _str_consts(list(ob.hyps) + [ob.goal])
-    if len(sc) > 1:
-        s.add(z3.Distinct(*sc))
-    r = s.check()
+    # the solver seed is fixed (verdicts must not depend on VERIF_SEED); an `unknown` is retried with other seeds and a
+    # doubled budget before the obligation is given up as undecided - nonlinear real goals are sensitive to the seed
+    attempts = [(0, timeout_ms)] if "canary" in (ob.kind or "") else [(0, timeout_ms), (7, timeout_ms), (3, timeout_ms), (11, timeout_ms * 2), (5, timeout_ms * 2)]
+    r = z3.unknown
+    for (sd, tmo) in attempts:
+        s = z3.Solver()
+        s.set("timeout", int(tmo))
+        s.set("random_seed", sd)
+        for h in ob.hyps:
+            s.add(h)
+        s.add(z3.Not(ob.goal))
+        if len(sc) > 1:
+            s.add(z3.Distinct(*sc))
+        r = s.check()
+        if r != z3.unknown:
+            break
     ob.seconds = time.time() - t0
     if r == z3.unsat:
         ob.status = "discharged"
